@@ -31,6 +31,14 @@ use std::collections::{BTreeMap, BTreeSet};
 #[derive(Clone, Default, PartialEq, Eq, Debug)]
 struct Simple {
     map: BTreeMap<String, Tgt>,
+    /// reflogs: (old, new) pairs per name, `0` = null id (extended histories only)
+    logs: BTreeMap<String, Vec<(String, String)>>,
+    /// refuse directory/file conflicts like git does and keep the reflogs (extended histories)
+    extended: bool,
+    /// the last transaction was refused because of a directory/file conflict
+    df_refused: bool,
+    /// … and the refused edit deletes a name that does not exist: doing nothing is fine as well
+    df_soft: bool,
 }
 
 #[derive(Clone, Debug)]
@@ -41,6 +49,8 @@ struct Exp {
     new: Option<Tgt>,
     log_only: bool,
     deref: bool,
+    /// a symbolic ref that was dereferenced: the change went to its referent
+    split: bool,
 }
 
 #[derive(Debug, PartialEq, Eq)]
@@ -63,7 +73,13 @@ impl Simple {
     fn initial() -> Simple {
         let mut map = BTreeMap::new();
         map.insert("HEAD".to_string(), Tgt::S("refs/heads/a".to_string()));
-        Simple { map }
+        Simple {
+            map,
+            logs: BTreeMap::new(),
+            extended: false,
+            df_refused: false,
+            df_soft: false,
+        }
     }
 
     /// The edits after symbolic refs have been split (deref), in rounds like the real code:
@@ -78,6 +94,7 @@ impl Simple {
                 new: e.new.clone(),
                 log_only: e.log_only,
                 deref: e.deref,
+                split: false,
             })
             .collect();
         let mut first = 0;
@@ -97,7 +114,9 @@ impl Simple {
                         new: e.new.clone(),
                         log_only: e.log_only,
                         deref: true,
+                        split: false,
                     };
+                    e.split = true;
                     // the symbolic ref itself only gets a reflog entry; an update no longer
                     // checks its own previous value, a deletion keeps checking it
                     e.log_only = true;
@@ -177,6 +196,24 @@ impl Simple {
                 }
             }
         }
+        // git refuses a name that has an existing ref, or another name of the transaction, as a
+        // directory prefix or below it (refs_verify_refname_available)
+        if self.extended {
+            for e in &all {
+                if e.log_only {
+                    continue;
+                }
+                let conflicts = |m: &String| {
+                    m != &e.name && (m.starts_with(&format!("{}/", e.name)) || e.name.starts_with(&format!("{m}/")))
+                };
+                if self.map.keys().any(conflicts) || all.iter().any(|x| conflicts(&x.name)) {
+                    self.df_refused = true;
+                    // deleting what is not there: doing nothing is as good as refusing
+                    self.df_soft = e.del && !self.map.contains_key(&e.name);
+                    return Verdict::Err;
+                }
+            }
+        }
         let mut contract = false;
         for e in &all {
             match self.check(e) {
@@ -187,6 +224,9 @@ impl Simple {
         }
         if contract {
             return Verdict::Contract;
+        }
+        if self.extended {
+            self.write_reflogs(&all);
         }
         for e in &all {
             if e.log_only {
@@ -199,6 +239,76 @@ impl Simple {
             }
         }
         Verdict::Ok
+    }
+
+    /// The reflog rule: one line per updated name with old = the object the name had (for a
+    /// symbolic ref that was dereferenced: the object its referent had), new = the new object;
+    /// nothing if the value does not change, nothing for symbolic new values (except the
+    /// "clone" case: a new symbolic ref with `ExistingMustMatch(object)`), only for names that
+    /// get reflogs by default or have one; deleting removes the reflog.
+    fn write_reflogs(&mut self, all: &[Exp]) {
+        let auto = |n: &str| n == "HEAD" || n.starts_with("refs/heads/") || n.starts_with("refs/remotes/");
+        // the previous object of the leaf of the chain an edit starts (edits are in split order:
+        // the referent of the edit at index i is the next edit whose name is the symbolic target)
+        let leaf_prev = |start: &Exp| -> Option<String> {
+            let mut cur = start.name.clone();
+            for _ in 0..6 {
+                match self.map.get(&cur) {
+                    Some(Tgt::S(next)) => cur = next.clone(),
+                    Some(Tgt::O(o)) => return Some(o.clone()),
+                    None => {
+                        // the leaf does not exist: its edit's expectation stands in (a quirk)
+                        let leaf = all.iter().find(|x| x.name == cur)?;
+                        return match &leaf.expected {
+                            Prev::Emm(Tgt::O(o)) => Some(o.clone()),
+                            _ => None,
+                        };
+                    }
+                }
+            }
+            None
+        };
+        let mut appends: Vec<(String, String, String)> = Vec::new();
+        let mut removes: Vec<String> = Vec::new();
+        for e in all {
+            if e.del {
+                removes.push(e.name.clone());
+                continue;
+            }
+            let cur = self.map.get(&e.name);
+            let line = match e.new.as_ref().expect("update") {
+                Tgt::S(_) => match (&e.expected, cur) {
+                    (Prev::Emm(Tgt::O(o)), None) => Some(("0".to_string(), o.clone())),
+                    _ => None,
+                },
+                Tgt::O(new) => {
+                    let old = match cur {
+                        Some(Tgt::O(p)) => Some(p.clone()),
+                        // a dereferenced symbolic ref logs the old value of its referent; one that
+                        // is overwritten itself had no object value
+                        Some(Tgt::S(_)) if e.split => leaf_prev(e),
+                        Some(Tgt::S(_)) => None,
+                        None => None,
+                    };
+                    match old {
+                        Some(p) if &p == new => None,
+                        Some(p) => Some((p, new.clone())),
+                        None => Some(("0".to_string(), new.clone())),
+                    }
+                }
+            };
+            if let Some((a, b)) = line {
+                appends.push((e.name.clone(), a, b));
+            }
+        }
+        for (n, a, b) in appends {
+            if auto(&n) || self.logs.contains_key(&n) {
+                self.logs.entry(n).or_default().push((a, b));
+            }
+        }
+        for n in removes {
+            self.logs.remove(&n);
+        }
     }
 
     /// the object a name resolves to the way git reads it (at most 5 reads)
@@ -620,6 +730,193 @@ fn gen_history(rng: &mut Rng, cx: &mut Ctx, cfg: &GenCfg) {
     record(cx, &ops, &obs);
 }
 
+// ---------------------------------------------------------------------------------------------
+// extended histories (`histx`): transactions only, nested names may conflict, reflogs are observed
+
+fn fmt_history_x(ops: &[Op]) -> String {
+    format!("histx{}", &fmt_history(ops)[4..])
+}
+
+fn parse_history_x(line: &str) -> Option<Vec<Op>> {
+    let rest = line.strip_prefix("histx")?;
+    let ops = parse_history(&format!("hist{rest}"))?;
+    ops.iter().all(|o| matches!(o, Op::Txn { .. })).then_some(ops)
+}
+
+fn real_logs(world: &World) -> BTreeMap<String, Vec<(String, String)>> {
+    NAMES
+        .iter()
+        .filter_map(|n| world.reflog_lines(n).map(|l| (n.to_string(), l)))
+        .collect()
+}
+
+/// One transaction of an extended history: result + extended dump; the oracle knows git's
+/// directory/file rule and the reflog rule.
+fn step_x(cx: &mut Ctx, sim: &mut Simple, op: &Op, done: &[Op]) -> String {
+    let line = {
+        let mut h = done.to_vec();
+        h.push(op.clone());
+        fmt_history_x(&h)
+    };
+    let res = match cx.world.apply(op) {
+        Applied::Hang => {
+            fail(cx, &format!("hang [{}]", op.fmt()), "the transaction did not return", &line);
+            cx.world.fresh_dir_after_hang();
+            return "hang".into();
+        }
+        Applied::Done(r) => r,
+    };
+    let Op::Txn { edits, mode, .. } = op else { unreachable!("extended histories are transactions") };
+    let before = sim.clone();
+    sim.df_refused = false;
+    sim.df_soft = false;
+    let verdict = sim.apply_txn(edits, *mode);
+    let kind = res.split(':').take(2).collect::<Vec<_>>().join(":");
+    cx.rep.bucket(&format!("x-txn:{kind}"));
+    if sim.df_refused {
+        cx.rep.bucket("x-df-refused-by-spec");
+    }
+    cx.rep.oracle_checked();
+    let view = cx.world.view().unwrap_or_default();
+    let logs = real_logs(&cx.world);
+    let mut resync = false;
+    match verdict {
+        Verdict::Ok => {
+            if res.starts_with("err:c-") {
+                // commit-time failures only come from nested names (reflog or reference path is a
+                // directory / below a file) in a store that already holds conflicting names
+                let unchanged = view == before.map && logs == before.logs;
+                fail(
+                    cx,
+                    if unchanged { "df-commit-failure" } else { "df-partial-commit" },
+                    &format!(
+                        "the transaction [{}] failed at commit time with {res}: refs {:?} -> {view:?}, reflogs {:?} -> {logs:?}",
+                        op.fmt(), before.map, before.logs
+                    ),
+                    &line,
+                );
+                resync = true;
+            } else if res != "ok" {
+                fail(cx, &format!("verdict-differs [{}]", op.fmt()), &format!("gitoxide: {res}, simple model: Ok"), &line);
+                resync = true;
+            } else {
+                if view != sim.map {
+                    fail(
+                        cx,
+                        &format!("state-differs [{}]", op.fmt()),
+                        &format!("gitoxide {view:?}, simple model {:?}", sim.map),
+                        &line,
+                    );
+                    resync = true;
+                }
+                if logs != sim.logs {
+                    fail(
+                        cx,
+                        &format!("reflog-differs [{}]", op.fmt()),
+                        &format!("reflogs {logs:?}, expected one line per updated name: {:?}", sim.logs),
+                        &line,
+                    );
+                    resync = true;
+                }
+            }
+        }
+        Verdict::Err | Verdict::Contract => {
+            if verdict == Verdict::Contract {
+                cx.rep.outside_domain(&format!("Delete with MustNotExist: {} -> {res}", op.fmt()));
+                *sim = before.clone();
+            }
+            let unchanged = view == before.map && logs == before.logs;
+            if res == "ok" && sim.df_soft && unchanged {
+                // deleting what is not there, below an existing reference: nothing happened
+            } else if res == "ok" {
+                if before.extended && sim.df_refused {
+                    // git refuses to create a ref below / above an existing one
+                    fail(
+                        cx,
+                        "df-accepted-conflict",
+                        &format!("the transaction [{}] creates a reference that conflicts with an existing one as directory/file; git refuses that", op.fmt()),
+                        &line,
+                    );
+                } else {
+                    fail(cx, &format!("verdict-differs [{}]", op.fmt()), &format!("gitoxide: ok, simple model: {verdict:?}"), &line);
+                }
+                resync = true;
+            } else if !unchanged {
+                if sim.df_refused || res.starts_with("err:c-") {
+                    fail(
+                        cx,
+                        "df-partial-commit",
+                        &format!(
+                            "the transaction [{}] failed with {res} AFTER part of it had been applied: refs {:?} -> {view:?}, reflogs {:?} -> {logs:?}",
+                            op.fmt(), before.map, before.logs
+                        ),
+                        &line,
+                    );
+                } else {
+                    fail(
+                        cx,
+                        &format!("failed-but-changed [{}]", op.fmt()),
+                        &format!("{res}: refs {:?} -> {view:?}, reflogs {:?} -> {logs:?}", before.map, before.logs),
+                        &line,
+                    );
+                }
+                resync = true;
+            }
+        }
+    }
+    if !cx.world.lock_files().is_empty() {
+        fail(cx, &format!("lock-leak [{}]", op.fmt()), &format!("lock files left behind: {:?}", cx.world.lock_files()), &line);
+    }
+    if resync {
+        sim.map = view;
+        sim.logs = logs;
+    }
+    format!("{res}#{}", cx.world.dump_x())
+}
+
+fn run_history_x(cx: &mut Ctx, ops: &[Op]) {
+    cx.world.reset();
+    let mut sim = Simple::initial();
+    sim.extended = true;
+    let mut done: Vec<Op> = Vec::new();
+    let mut obs: Vec<String> = Vec::new();
+    for op in ops {
+        let o = step_x(cx, &mut sim, op, &done);
+        let hang = o == "hang";
+        done.push(op.clone());
+        obs.push(o);
+        if hang {
+            break;
+        }
+    }
+    if !done.is_empty() {
+        cx.rep.case(&fmt_history_x(&done), &obs.join(" ; "), true);
+        cx.rep.bucket(&format!("histx-len:{:02}", done.len()));
+    }
+}
+
+fn gen_history_x(rng: &mut Rng, cx: &mut Ctx, cfg: &GenCfg) {
+    cx.world.reset();
+    let mut sim = Simple::initial();
+    sim.extended = true;
+    let len = 1 + rng.usize(12);
+    let mut ops: Vec<Op> = Vec::new();
+    let mut obs: Vec<String> = Vec::new();
+    while ops.len() < len {
+        let view = cx.world.view().unwrap_or_default();
+        let op = gen_txn(rng, &view, cfg);
+        let o = step_x(cx, &mut sim, &op, &ops);
+        let hang = o == "hang";
+        ops.push(op);
+        obs.push(o);
+        if hang {
+            break;
+        }
+    }
+    cx.rep.case(&fmt_history_x(&ops), &obs.join(" ; "), true);
+    cx.rep.bucket(&format!("histx-len:{:02}", ops.len()));
+}
+
 fn corpus() -> Vec<&'static str> {
     vec![
         // create, update with the right / wrong expectation, delete
@@ -640,6 +937,22 @@ fn corpus() -> Vec<&'static str> {
         "hist gitupdate-ref d=0 nd=1 HEAD c1 - ; gitupdate-ref d=0 nd=0 refs/tags/t c2 0 ; gitupdate-ref d=0 nd=0 refs/tags/t c3 0 ; gitupdate-ref d=0 nd=0 refs/tags/t c3 c2 ; gitpack-refs all=1 prune=0 ; gitupdate-ref d=1 nd=1 refs/tags/t - c3",
         // nested names come and go (directories are created and removed)
         "hist txn mode=D rf=I pf=I U,refs/heads/a/b,n,any,o:c1,r ; txn mode=U rf=I pf=I U,refs/tags/t,n,any,o:c1,r ; txn mode=D rf=I pf=I D,refs/heads/a/b,n,any,-,r ; txn mode=R rf=I pf=I U,refs/heads/a,n,any,o:c2,r U,refs/tags/t,n,any,o:c3,r ; txn mode=D rf=I pf=I D,refs/heads/a,n,any,-,r ; txn mode=D rf=I pf=I U,refs/heads/a/b,n,mne,o:c1,r",
+    ]
+}
+
+/// extended histories: reflogs, and nested names that get in each other's way
+fn corpus_x() -> Vec<&'static str> {
+    vec![
+        // reflog lines: creation, update, no line without change, HEAD follows its branch, deletion removes the log
+        "histx txn mode=D rf=I pf=I U,HEAD,d,any,o:c1,r ; txn mode=D rf=I pf=I U,HEAD,d,mem=o:c1,o:c2,r ; txn mode=D rf=I pf=I U,HEAD,d,any,o:c2,r ; txn mode=D rf=I pf=I U,refs/tags/t,n,any,o:c1,r ; txn mode=R rf=I pf=I U,refs/heads/b,n,any,o:c3,r U,refs/remotes/o/HEAD,n,emm=o:c1,s:refs/heads/b,r ; txn mode=D rf=I pf=I D,HEAD,d,any,-,r ; txn mode=D rf=I pf=I U,HEAD,d,emm=o:c3,o:c1,r ; txn mode=D rf=I pf=I U,HEAD,n,mem=s:refs/heads/a,o:c3,r",
+        // a file where a directory is needed: refused while locking, nothing happens
+        "histx txn mode=D rf=I pf=I U,refs/heads/a,n,any,o:c1,r ; txn mode=D rf=I pf=I U,refs/heads/b,n,any,o:c2,r U,refs/heads/a/b,n,any,o:c2,r ; txn mode=D rf=I pf=I D,refs/heads/a/b,n,any,-,r",
+        // a directory where a file is needed: found out at commit time, after the first edit was applied
+        "histx txn mode=D rf=I pf=I U,refs/heads/a/b,n,any,o:c1,r ; txn mode=D rf=I pf=I U,refs/heads/b,n,any,o:c2,r U,refs/heads/a,n,any,o:c2,r U,refs/tags/t,n,any,o:c2,r",
+        // both names in one transaction
+        "histx txn mode=D rf=I pf=I U,refs/heads/a,n,any,o:c1,r U,refs/heads/a/b,n,any,o:c2,r ; txn mode=D rf=I pf=I U,refs/heads/a/b,n,any,o:c1,r U,refs/heads/a,n,any,o:c2,r",
+        // a packed ref and a symbolic ref below it: nothing notices
+        "histx txn mode=R rf=I pf=I U,refs/heads/a,n,any,o:c1,r ; txn mode=D rf=I pf=I U,refs/heads/a/b,n,any,s:refs/heads/b,r ; txn mode=D rf=I pf=I U,refs/heads/a/b,n,any,o:c2,r ; txn mode=D rf=I pf=I D,refs/heads/a,n,any,-,r",
     ]
 }
 
@@ -665,9 +978,13 @@ fn main() {
     };
     if let Some(lines) = replay_ops(&args) {
         for line in lines {
-            match parse_history(&line) {
-                Some(h) => run_history(&mut cx, &h),
-                None => cx.rep.note(&format!("unparsable replay line: {line}")),
+            if let Some(h) = parse_history_x(&line) {
+                run_history_x(&mut cx, &h);
+            } else {
+                match parse_history(&line) {
+                    Some(h) => run_history(&mut cx, &h),
+                    None => cx.rep.note(&format!("unparsable replay line: {line}")),
+                }
             }
         }
     } else {
@@ -675,8 +992,18 @@ fn main() {
             let h = parse_history(line).unwrap_or_else(|| panic!("bad corpus line {line}"));
             run_history(&mut cx, &h);
         }
-        for _ in 0..args.budget(100, 700) {
-            gen_history(&mut rng, &mut cx, &cfg);
+        // VERIF_C16_X=1: extended histories only (used while developing the extended model)
+        if std::env::var_os("VERIF_C16_X").is_none() {
+            for _ in 0..args.budget(60, 600) {
+                gen_history(&mut rng, &mut cx, &cfg);
+            }
+        }
+        for line in corpus_x() {
+            let h = parse_history_x(line).unwrap_or_else(|| panic!("bad corpus line {line}"));
+            run_history_x(&mut cx, &h);
+        }
+        for _ in 0..args.budget(80, 1000) {
+            gen_history_x(&mut rng, &mut cx, &cfg);
         }
     }
     if cx.world.refs_dir_recreated > 0 {
